@@ -41,6 +41,20 @@ def r1(ctx):
         n_guarded += 1
         ctx.check('spawner_task|ticket-granted|after-period', b.must_pass(d[0], period), 'a ticket is granted without waiting for the network wait period',
                   '%s:%s' % (b.file, b.blocks[d[0]]['stmts'][d[1]]['line']))
+    # a granted ticket is used at once: from the grant, the spawn condition (is_complete) is evaluated before the task waits for events again
+    # (otherwise an incomplete spawner holding a ticket sits in the untimed recv() until an unrelated event arrives)
+    waits = [s.bb for s in b.calls(r'Receiver::recv$')] + [s.bb for s in b.calls(r'tokio::time::timeout::timeout$|time::timeout$')]
+    # the spawn test: the branch on the ticket flag that every path to the is_complete() call goes through (path-insensitively the flag's false
+    # edge skips is_complete(), so the test block itself is the waypoint, not the call)
+    ic = [s.bb for s in b.calls(r'Spawner::is_complete$')]
+    isflag = lambda f: f.kind == 'bool' and re.match(r'^%s\b' % re.escape(fl), tstr(f.term)) is not None
+    conds = sorted({s0 for (s0, d0, fs) in b.edges() if fs and all(isflag(f) for f in fs) and ic and all(must_pass_block_from(b, 0, x, [s0]) for x in ic)})
+    for d in trues:
+        if d[0] == 0 or not b.must_pass(d[0], lambda f: True):
+            continue
+        ctx.check('spawner_task|ticket-granted|used-before-waiting', bool(conds) and all(must_pass_block_from(b, d[0], w, conds) for w in waits),
+                  'after a ticket is granted the task can wait for events without first attempting to spawn: an incomplete spawner stops retrying at the wait-period pace',
+                  '%s:%s' % (b.file, b.blocks[d[0]]['stmts'][d[1]]['line']), sample=len(waits))
     ctx.check('spawner_task|ticket-grant-sites', len(trues) == 2 and n_guarded == 1, 'ticket grant sites: %d (guarded %d)' % (len(trues), n_guarded), sample=[len(trues), n_guarded])
     ctx.check('spawner_task|ticket-consumed', len(falses) == 1, 'has_ticket = false sites: %d' % len(falses), sample=len(falses))
     resets = [d for d in b.defs()[lt] if d[0] != 0 and b.can_reach(ts.bb, d[0])]
